@@ -113,7 +113,12 @@ def run_case(i, seed, tier):
         profile = 'hybrid'
     else:
         h = common.History(cfg, seed * 1000003 + i, profile)
-        h.extend(nops)
+        if i % 7 == 5:
+            h.extend(nops // 2)
+            counters['reopened_histories'] = 1 if h.reopen() else 0
+            h.extend(nops - nops // 2)
+        else:
+            h.extend(nops)
         ops = list(h.ops)
         h.sess.close()
     vio = c01.dedup(check(cfg, ops, seed * 1000003 + i, counters))
